@@ -137,7 +137,7 @@ PROPS = {
     "C07": dict(T("same payload families as C01; both encoders compared with Frame.Canonical; ArrayBuf capacities around the frame length; 5 extra next() calls after the iterator ended"),
                 mc={"quick": ["encoders"], "thorough": ["encoders"]},
                 steps=[{"cmd": "c07", "judge": "J_C07"}]),
-    "C08": dict(T("7 idle histories x all noise strings over {1b,01,55} up to length 7/9 + random noise over all byte values (incl. partial start sequences) x 5 payloads; every cut point of 265+ frames "
+    "C08": dict(T("10 idle histories (new, after ok / invalid message / invalid escape - also with error bytes ending in 0x1b -, after reset / finalize) x all noise strings over {1b,01,55} up to length 7/9 + random noise over all byte values (incl. partial start sequences) x 5 payloads; every cut point of 265+ frames "
                   "followed by 3 frames; the antecedent (no start sequence in noise / no escape in progress) is evaluated by the monitor"),
                 mc={"quick": ["resync_noise"], "thorough": ["resync_noise"]},
                 steps=[{"cmd": "c08", "judge": "J_C08"}]),
